@@ -3,10 +3,10 @@
 From Coq Require Import List Arith NArith ZArith Extraction ExtrOcamlBasic.
 From CelloV Require Import Generated Exn.
 
-(* the machine with the nesting bound of the working tree; the flag clear_active_on_catch is
-   handed over by props/C07.py, which reads it from the same Generated.v (so that the driver still
+(* the machine with the nesting bound of the working tree; the flags clear_active_on_catch,
+   throw_records_obj_after_format, try_keeps_obj are handed over by props/C07.py, which reads it from the same Generated.v (so that the driver still
    builds, and the specification still runs, when the source no longer yields the flag) *)
-Definition exn_mach_clr (clr : bool) := mrun exc_max_depth clr.
+Definition exn_mach_clr (clr oaf tko : bool) := mrun exc_max_depth clr oaf tko.
 Definition exn_ref := ref_run.
 Definition exn_nesting := nesting.
 Definition exn_max := exc_max_depth.
